@@ -18,7 +18,8 @@ def extra(choice, sig):
         return ks + ([dict(kk, square=False) for kk in ks] if any(c[0] == "int" for c in choice) else [])
     if any(c[0] == "op" and c[1] == "BlockDiag" for c in choice):
         # the BlockDiag rule repeats python lists by the multiplicity: concrete multiplicities, enumerated
-        return [dict(kk, mult=m) for kk in ks for m in ((1, 1, 1), (2, 1, 3), (3, 2, 1))]
+        # ... and, for diag, blocks that are not square although the whole operator is ((2 x 3) and (3 x 2) blocks): the block-wise rule must refuse them
+        return [dict(kk, mult=m) for kk in ks for m in ((1, 1, 1), (2, 1, 3), (3, 2, 1))] + ([dict(kk, mult=(1, 1, 1), square=False) for kk in ks] if any(c[0] == "int" for c in choice) else [])
     return ks
 
 
